@@ -848,6 +848,21 @@ sendpld_flush(br_ssl_engine_context *rc, int force)
 	if (xlen == 0 && !force) {
 		return;
 	}
+
+	/*
+	 * With a shared buffer, a record may be assembled only while the
+	 * buffer is not used for an incoming record, and the buffer then
+	 * stays in output mode until the record has been sent (a forced
+	 * empty record does not go through sendpld_ack()).
+	 */
+	if (rc->ibuf == rc->obuf) {
+		if (rc->iomode == BR_IO_IN) {
+			return;
+		}
+		if (rc->iomode == BR_IO_INOUT) {
+			rc->iomode = BR_IO_OUT;
+		}
+	}
 	buf = rc->out.vtable->encrypt(&rc->out.vtable,
 		rc->record_type_out, rc->version_out,
 		rc->obuf + rc->oxc, &xlen);
